@@ -27,6 +27,11 @@ func checkC13(c *Ctx) {
 	// buffered bodies are delivered in order and within the limits (shared with C14)
 	r144(c, "R13.6 buffered-bodies-keep-order")
 	rStatusKept(c, "R13.7 buffered-status-kept")
+	// the only clock on a proxied exchange is the wait for the response HEADERS: a deadline on the whole exchange would
+	// cut a slow body short (shared with C15)
+	r151(c, "R13.8 proxy-configuration")
+	// the request the rest of the chain sees carries the client's URL: no library wrapper rewrites it on the way in
+	rNoURLRewritingWrappers(c, "R13.9 no-url-rewriting-wrappers")
 }
 
 type touch struct {
@@ -593,4 +598,22 @@ func r135(c *Ctx, rule string) {
 		}
 	}
 	c.ob(rule, "startHTTPServers/both-listeners-serve-the-chain", shs.Pos(), cnt == 2, true, "")
+}
+
+// rNoURLRewritingWrappers: http.StripPrefix (and friends) hand the next handler a COPY of the request with a rewritten
+// URL - invisible to the who-may-touch table, which follows stores. Everything downstream (TLS redirect target, health
+// check path test, access log, what the target receives) would be computed from the rewritten URL (shared by C13, C16).
+func rNoURLRewritingWrappers(c *Ctx, rule string) {
+	c.floor(rule, 1)
+	n := 0
+	for _, fn := range c.proxyFuncs() {
+		for _, cs := range callsIn(fn) {
+			switch calleeName(cs.common()) {
+			case "net/http.StripPrefix", "net/http.RedirectHandler", "net/http.NewServeMux", "(*net/http.ServeMux).Handle", "(*net/http.ServeMux).HandleFunc":
+				n++
+				c.ob(rule, "url-rewriting-wrapper in "+fname(fn), cs.pos(), false, true, calleeName(cs.common())+" routes or rewrites by URL inside the library: the chain below would no longer see the client's URL")
+			}
+		}
+	}
+	c.ob(rule, "no-library-routing-or-prefix-stripping", c.method("Router", "ServeHTTP").Pos(), n == 0, true, "")
 }
